@@ -5,6 +5,7 @@ mod bcodec;
 mod conn;
 mod hand;
 mod meta;
+mod mi;
 mod sess;
 mod util;
 mod wire;
@@ -16,6 +17,7 @@ fn run_line(prop: &str, args: &[&str]) -> String {
     match prop {
         "C03" => meta::run03(args),
         "C04" => meta::run04(args),
+        "C05" | "C17" => mi::run(args),
         "C06" => conn::run(args),
         "C08" | "C09" | "C10" | "C11" | "C20" | "C01" => hand::run(args),
         "C07" => wire::run(args),
@@ -32,6 +34,8 @@ fn gen(prop: &str, rng: &mut Rng, n: usize) -> Vec<String> {
     match prop {
         "C03" => meta::gen03(rng, n),
         "C04" => meta::gen04(rng, n),
+        "C05" => mi::gen05(rng, n),
+        "C17" => mi::gen17(rng, n),
         "C06" => conn::gen(rng, n),
         "C08" | "C09" | "C10" | "C11" | "C20" | "C01" => hand::gen(rng, n, prop),
         "C07" => wire::gen(rng, n),
